@@ -31,7 +31,8 @@ WELL = re.compile(r"\$9\$[" + re.escape(ALPH) + r"]{4,}\Z")
 
 def bounds(tier, seed):
     return {"abstract_states": "fixpoint", "code_points": 256, "salt_characters": 65,
-            "malformed_len": 4 if tier == "quick" else 5, "mutated_ciphertexts": 20}
+            "malformed_len": 4 if tier == "quick" else 5, "mutated_ciphertexts": 20,
+            "insertion_pairs_into": 7 if tier == "quick" else 20, "wrapper_pairs": 28 * 28 - 1}
 
 
 def mod():
@@ -260,7 +261,7 @@ def judge_decode(res, js, s, rc, kind):
 
 class Decoder(Part):
     name = "decoder_malformed"
-    desc = "short strings over a reduced alphabet and single mutations of valid ciphertexts vs independent decoder"
+    desc = "short strings over a reduced alphabet, single mutations, all pairs of insertions and all wrapper pairs of valid ciphertexts vs independent decoder"
 
     def __init__(self, tier, seed):
         self.tier, self.seed = tier, seed
@@ -298,6 +299,22 @@ class Decoder(Part):
                         judge_decode(res, js, s, {"s": s}, "substituted")
                 s = c[:pos] + "\n" + c[pos:]
                 judge_decode(res, js, s, {"s": s}, "inserted-newline")
+            # two deviations: every pair of single-character insertions (any two positions, ends included)
+            ins = ('"', "'", " ", "\n", "!", "Q") if (i < 7 or self.tier != "quick") else ()
+            for p1 in range(len(c) + 1):
+                for p2 in range(p1, len(c) + 1):
+                    for a in ins:
+                        for b in ins:
+                            s = c[:p1] + a + c[p1:p2] + b + c[p2:]
+                            judge_decode(res, js, s, {"s": s}, "two-insertions")
+            # every wrapper pair around the whole ciphertext (quotes, brackets, blanks, separators)
+            wrap = ["", '"', "'", "`", " ", "\t", "\n", "\r", "(", ")", "[", "]", "{", "}", "<", ">", ";", ",", ":", "=",
+                    "\\", "\u201c", "\u201d", "\u00ab", "\u00bb", '""', "''", "$9$"]
+            for a in wrap:
+                for b in wrap:
+                    if a or b:
+                        s = a + c + b
+                        judge_decode(res, js, s, {"s": s}, "wrapped")
             res.samples.append({"ciphertext": c, "plain": plain})
         else:
             longc = refs.j9_encode("".join(chr(40 + i % 80) for i in range(6000)), "Q")
